@@ -466,9 +466,25 @@ XMOD = {
 }
 FAMILY.update(XMOD)
 
+# a pointer overloaded in a child without overriding some inherited field,
+# then dropped (or changed) in the parent; C02 migrates these among
+# themselves only
+OVERDROP = {
+    'OD_0': D('type P { x: str { readonly := true } } type C extending P '
+              '{ overloaded x: str { annotation title := "t" } }'),
+    'OD_drop': D('type P; type C extending P '
+                 '{ x: str { annotation title := "t" } }'),
+    'OD_def': D('type P { x: str { default := "d" } } type C extending P '
+                '{ overloaded x: str { annotation title := "t" } }'),
+    'OD_req': D('type P { required x: str } type C extending P '
+                '{ overloaded x: str { annotation title := "t" } }'),
+}
+FAMILY.update(OVERDROP)
+PAIR_ONLY_GROUPS = [list(OVERDROP)]
+
 # groups that take part in the pairwise / chain explorations only through
 # their own focus-group pairs (C03 still describes every FAMILY member)
-NOT_PAIRED = set(INHCON) | set(CONREF) | set(XMOD)
+NOT_PAIRED = set(INHCON) | set(CONREF) | set(XMOD) | set(OVERDROP)
 
 
 def names(quick):
